@@ -34,13 +34,13 @@ OpsOf ==       \* per object kind the read-only method set, in a fixed order
                   "AddOperand", "SubOperand", "NegOperand", "MulOperand">>,
    scalar   |-> <<"MarshalBinary", "String", "Equal", "Clone", "MarshalTo", "SetArg",
                   "AddOperand", "MulOperand", "NegOperand", "InvOperand", "DivOperand", "MulPoint">>,
-   suite    |-> <<"RandomStream", "PickScalar", "PickPoint", "Hash", "XOF", "NewKeyPair", "NewPoint", "NewScalar">>,
+   suite    |-> <<"RandomStream", "PickScalar", "PickPoint", "Hash", "XOF", "NewKeyPair", "NewPoint", "NewScalar", "HashToPoint">>,
    pairing  |-> <<"Pair", "ValidatePairing", "MarshalG1", "MarshalG2">>,
    bdnmask  |-> <<"Clone", "Mask", "Publics", "Participants", "CountEnabled", "IndexOfNthEnabled",
                   "AggregatePublicKeys">>,
    cosimask |-> <<"Mask", "CountEnabled", "IndexEnabled", "KeyEnabled", "Verify">>,
    pubpoly  |-> <<"Eval", "Check", "Commit", "Info", "Equal", "Shares">>,
-   verifier |-> <<"Verify", "VerifyWrongMsg", "MarshalKey">>,
+   verifier |-> <<"Verify", "VerifyWrongMsg", "MarshalKey", "Sign">>,
    \* ONE random stream object (random.New() on the default source, random.New(readers...), the stream of a suite
    \* constructed WithRand) drawn from by all goroutines
    stream   |-> <<"Draw", "DrawLong", "PickScalar">>,
@@ -63,10 +63,18 @@ OpsOf ==       \* per object kind the read-only method set, in a fixed order
 (*            order (implementations whose decoder accepts them), new object *)
 (*            per repetition: its first Equal / Marshal / String / operand   *)
 (*            uses are concurrent -- where a lazy reduction would be written *)
+(*  "configured" a suite object configured through its setters (custom       *)
+(*            domain separation tags of 17 and 44 bytes: lengths that are no *)
+(*            allocator size class) BEFORE it is shared; then concurrent     *)
+(*            hash-to-point / Sign / Verify through it                        *)
+(*  "nilbase" a PubPoly on the standard base given as nil (Commit(nil),      *)
+(*            NewPubPoly(g, nil, ..)), not queried before being shared        *)
 RepsOf(k) == CASE k = "point"  -> {"decoded", "arith"}
                [] k = "scalar" -> {"decoded", "arith", "unreduced"}
                [] k = "pairing" -> {"decoded", "arith", "fresh"}
-               [] k = "suite"   -> {"fresh", "warm"}
+               [] k = "suite"    -> {"fresh", "warm", "configured"}
+               [] k = "verifier" -> {"fresh", "configured"}
+               [] k = "pubpoly"  -> {"fresh", "nilbase"}
                [] OTHER         -> {"fresh"}
 
 (* which shared object a goroutine works on:                                 *)
@@ -81,6 +89,8 @@ RepsOf(k) == CASE k = "point"  -> {"decoded", "arith"}
 ObjsOf(k, r) == IF k \in {"point", "scalar", "pairing", "verifier"} /\ r \in {"arith", "fresh"}
                 THEN {"same", "distinct"} ELSE {"same"}
 Objs == {"A", "B", "pkg"}
+
+InitRepr(r) == IF r \in {"arith", "fresh", "unreduced", "configured", "nilbase"} THEN "raw" ELSE "norm"
 
 VARIABLES wl,      \* the workload: [kind, rep, objs, ops (one per goroutine)]
           pc,      \* goroutine -> number of accesses done
@@ -119,7 +129,7 @@ Init == \E k \in Kinds : \E r \in RepsOf(k) : \E ob \in ObjsOf(k, r) : \E idx \i
           /\ \A g \in 1..(G - 1) : idx[g] <= idx[g + 1]
           /\ wl = [kind |-> k, rep |-> r, objs |-> ob, ops |-> [g \in Gs |-> OpsOf[k][idx[g]]]]
           /\ pc = [g \in Gs |-> 0]
-          /\ sh = [o \in {"A", "B"} |-> IF r \in {"arith", "fresh", "unreduced"} THEN "raw" ELSE "norm"]  \* nothing normalised / created yet
+          /\ sh = [o \in {"A", "B"} |-> InitRepr(r)]  \* nothing normalised / created yet
           /\ cache = "A"        \* an earlier (sequential) use may have left an EQUAL key: with one object every lookup hits
           /\ seen = [g \in Gs |-> <<>>]
           /\ buf = 0 /\ drew = [g \in Gs |-> 0]
@@ -171,6 +181,10 @@ ResultsSequential == \A g \in Gs : Finished(g) =>
 (* draws of different goroutines from one shared stream never coincide: each *)
 (* is derived from the entropy collected by its own call                     *)
 DrawsDistinct == \A g1, g2 \in Gs : (g1 # g2 /\ drew[g1] # 0) => drew[g1] # drew[g2]
+
+(* read-only calls leave every observable of the shared objects as it was   *)
+(* (checked by the driver on what the public API exposes, e.g. PubPoly.Info) *)
+ObjectUnchanged == \A o \in {"A", "B"} : sh[o] = InitRepr(wl.rep)
 
 TypeOK == (\A o \in {"A", "B"} : sh[o] \in {"raw", "half", "norm"}) /\ cache \in {"A", "B"} /\ \A g \in Gs : pc[g] \in 0..7
 
